@@ -53,6 +53,7 @@ pub fn gen_plan(seed: u64, entry: Entry, thorough: bool) -> CrashPlan {
         whole_sec: false,
         allow_restart: false,
         allow_seed: false,
+        foreign_lock_pct: if r.chance(30, 100) { 15 } else { 0 },
     };
     let mut ops = seq::gen_ops(&mut r, &p, n_clients, &cfg, page);
     ops.retain(|o| !matches!(o, Op::Advance { .. }));
